@@ -465,6 +465,21 @@ def casadi_expr(pr, info, e):
     return out
 
 
+T5_PENDING = True  # initial derivative constants of non-differentiated variables (reported, undecided)
+
+
+def t5_affected(info, m, e):
+    spec = info.spec
+    cols = spec["states"] + spec["algs"] + [c["name"] for c in spec["controls"]]
+    for tm in e["terms"]:
+        for s in tm["s"]:
+            if s != "time" and s[0] == "der" and cols[s[1]] not in spec["states"]:
+                h = info.hist(cols[s[1]], m)
+                if h is not None and len(h["times"]) > 1:
+                    return True
+    return False
+
+
 def map_model_input(pr, info, m, x, lay):
     spec = info.spec
     cols = []
@@ -596,7 +611,9 @@ def check_instance(c, spec, rng, nq, fixed_queries=None, solve=False, tag="rando
             mvals = c15_synth.evalX(pr, mex, x) if mex else []
             it2 = iter(mvals)
             mimpl_vals = [("raise", r[1]) if r[0] == "raise" else ("ok", next(it2)) for r in mimpl]
-            lines.append({"op": "map", "mp": map_model_input(pr, info, m, x, lay), "e": es})
+            lines.append({"op": "map", "mp": map_model_input(pr, info, m, x, lay),
+                          "e": [{"const": fr(e["const"]), "terms": [{"c": fr(t["c"]), "s": t["s"]} for t in e["terms"]]}
+                                for e in es]})
             pending.append(dict(spec=spec, info=info, m=m, x=x, qs=qs, impl=impl_vals, oracle=o, es=es,
                                 mimpl=mimpl_vals, vk=vk, tag=tag))
     return lines, pending
@@ -672,16 +689,21 @@ def judge(c, item, macc, mmap):
     # ---- map_path_expression
     for ei, (e, iv) in enumerate(zip(item["es"], item["mimpl"])):
         case = {"spec": spec, "member": m, "x": item["x"], "expr": e}
+        skip0 = T5_PENDING and t5_affected(info, m, e)
         c.count(("map", tuple(str(s) for tm in e["terms"] for s in tm["s"])[:3], info.t0 != 0, spec["E"]))
         c.hit("map_path_expression")
         exp = oracle_map(o, e)
+        if skip0 and iv[0] == "ok":
+            c.hit("map:T5-stamp0-skipped")
+            exp = exp[1:]
+            iv = ("ok", iv[1][1:])
         if iv[0] == "raise":
             c.fail("map_path_expression raised %s" % iv[1], case)
         elif not close_list(exp, iv[1]):
             c.fail("map_path_expression differs from the stamp-by-stamp evaluation on the results", case,
                    {"expected": exp, "got": iv[1]})
         if mmap is not None and iv[0] == "ok":
-            mo = mmap[ei]
+            mo = mmap[ei][1:] if skip0 else mmap[ei]
             if not (len(mo) == len(iv[1]) and all(m_ != "raise" and same(m_, v) for m_, v in zip(mo, iv[1]))):
                 c.disagree("map_path_expression", case, mo, iv[1])
 
